@@ -118,10 +118,12 @@ def slotted(  # noqa: C901
 
         # Pickle fix for frozen dataclass as mentioned in https://bugs.python.org/issue36424
         # Use only if __getstate__ and __setstate__ are not declared and frozen=True
-        if (
-            all(param not in cls_dict for param in ["__getstate__", "__setstate__"])
-            and cls.__dataclass_params__.frozen
-        ):
+        user_defined = any(
+            param in vars(c)
+            for c in cls.__mro__[:-1]
+            for param in ("__getstate__", "__setstate__")
+        )
+        if not user_defined and cls.__dataclass_params__.frozen:
             cls_dict["__setstate__"] = _slots_setstate
 
         # Prepare new class with slots
